@@ -74,10 +74,12 @@ def settings_for(rng, kind, d, ns):
     extra = {}
     if kind in ("logistic", "joint"):
         P["log_g_mean"] = [f32(rng.uniform(-1.5, 3.0)) for _ in range(d)]
-        P["log_v0_mean"] = [f32(rng.uniform(-5, -2.0)) for _ in range(d)]
+        slow = rng.random() < 0.25          # slowly changing outcomes / ages in another unit: tiny velocities
+        P["log_v0_mean"] = [f32(rng.uniform(-14, -9) if slow else rng.uniform(-5, -2.0)) for _ in range(d)]
     elif kind == "linear":
         P["g_mean"] = [f32(rng.uniform(-0.5, 1.5)) for _ in range(d)]
-        P["log_v0_mean"] = [f32(rng.uniform(-5, -2.0)) for _ in range(d)]
+        slow = rng.random() < 0.25          # slowly changing outcomes / ages in another unit: tiny velocities
+        P["log_v0_mean"] = [f32(rng.uniform(-14, -9) if slow else rng.uniform(-5, -2.0)) for _ in range(d)]
     else:  # shared_speed_logistic
         P["log_g_mean"] = [f32(rng.uniform(-1.5, 3.0))]
         P["deltas_mean"] = [f32(rng.uniform(-1.5, 1.5)) for _ in range(d - 1)]
